@@ -40,6 +40,8 @@ type k4val struct {
 	tup  []k4val
 	// slices (kind 8): s = base key of the backing array
 	off, ln, cp int
+	// addr: the value is the address of a variable, field or element (never nil)
+	addr bool
 }
 
 func (v k4val) String() string {
@@ -561,7 +563,8 @@ func (it *k4interp) eval1(fr *k4frame, v ssa.Value) (k4val, error) {
 		if err != nil {
 			return k4val{}, err
 		}
-		return k4val{kind: 3, s: k}, nil
+		_, isFV := v.(*ssa.FreeVar)
+		return k4val{kind: 3, s: k, addr: !isFV}, nil
 	case *ssa.UnOp:
 		switch x.Op {
 		case token.NOT:
@@ -756,6 +759,10 @@ func (it *k4interp) eval1(fr *k4frame, v ssa.Value) (k4val, error) {
 			}
 			// pointer / interface identity vs nil etc: an atom
 		}
+		// the address of a variable, field or element compared with nil
+		if a.kind == 3 && b.kind == 3 && (x.Op == token.EQL || x.Op == token.NEQ) && ((a.addr && b.s == "nil" && !b.addr) || (b.addr && a.s == "nil" && !a.addr)) {
+			return k4val{kind: 1, b: x.Op == token.NEQ}, nil
+		}
 		if isBoolT(x.Type()) {
 			// `X != Y` on opaque operands is the negation of the atom `X == Y`
 			// (so a rewritten `err != nil` needs no second model entry)
@@ -883,7 +890,19 @@ func (it *k4interp) eval1(fr *k4frame, v ssa.Value) (k4val, error) {
 		}
 		return k4val{kind: 8, s: base, ln: int(l.f), cp: int(cp.f)}, nil
 	case *ssa.Slice:
-		if sv, err := it.eval(fr, x.X); err == nil && sv.kind == 8 {
+		sv, err := k4val{}, error(nil)
+		if pt, isPtr := x.X.Type().Underlying().(*types.Pointer); isPtr && (x.Low != nil || x.High != nil) {
+			// a[lo:hi] of an array variable: a window on its elements
+			if at, ok := pt.Elem().Underlying().(*types.Array); ok {
+				var k string
+				if k, err = it.addrKey(fr, x.X); err == nil {
+					sv = k4val{kind: 8, s: k, ln: int(at.Len()), cp: int(at.Len())}
+				}
+			}
+		} else {
+			sv, err = it.eval(fr, x.X)
+		}
+		if err == nil && sv.kind == 8 {
 			lo, hi := 0, sv.ln
 			if x.Low != nil {
 				v, err := it.eval(fr, x.Low)
@@ -1029,7 +1048,7 @@ func (it *k4interp) eval1(fr *k4frame, v ssa.Value) (k4val, error) {
 				return r, err
 			}
 		}
-		if cal != nil && cal.Blocks != nil && ((it.inline != nil && it.inline(cal)) || (k4WrapperInline != nil && k4WrapperInline(cal) && !it.onStack(cal)) || (isNewHelper(cal) && (it.recurseNew || !it.onStack(cal))) || (cal.Parent() != nil && len(it.stack) > 0 && rootFunc(cal) == rootFunc(it.stack[0]) && !it.onStack(cal))) {
+		if cal != nil && cal.Blocks != nil && (isBoundWrapper(cal) || (it.inline != nil && it.inline(cal)) || (k4WrapperInline != nil && k4WrapperInline(cal) && !it.onStack(cal)) || (isNewHelper(cal) && (it.recurseNew || !it.onStack(cal))) || (cal.Parent() != nil && len(it.stack) > 0 && rootFunc(cal) == rootFunc(it.stack[0]) && !it.onStack(cal))) {
 			var args []k4val
 			for _, a := range x.Call.Args {
 				av, err := it.eval(fr, a)
@@ -1072,6 +1091,13 @@ func (it *k4interp) eval1(fr *k4frame, v ssa.Value) (k4val, error) {
 		return it.opaque(fr, x)
 	}
 	return it.opaque(fr, v)
+}
+
+// isBoundWrapper: the synthetic wrapper behind a method value x.m (its body
+// calls m with the captured receiver): always unfolded, so the call is seen as
+// a call of the method itself.
+func isBoundWrapper(f *ssa.Function) bool {
+	return f.Synthetic != "" && strings.HasSuffix(f.Name(), "$bound")
 }
 
 func zeroOf(t types.Type) k4val {
